@@ -290,3 +290,9 @@ w("C11", "index checks validated on a positional copy again", BP + "components.p
 w("C11", "twin: index series bound to a local first", BP + "components.py",
   "        try:\n            _validated_obj = super().validate(\n                check_obj.index.to_series(),\n",
   "        index_series = check_obj.index.to_series()\n        try:\n            _validated_obj = super().validate(\n                index_series,\n", "twin")
+
+# ---- C08.R7 / R8 (defects found in round 3; R7 repaired by ad92cac, must be reported again if it returns) -------------
+w("C08", "polars float default fills NaN only again", BL + "components.py",
+  "            expr = expr.fill_nan(default_value).fill_null(default_value)\n", "            expr = expr.fill_nan(default_value)\n")
+w("C08", "pandas add_missing_columns re-selects the schema columns only", BP + "container.py",
+  "        concat_obj = concat_obj[concat_ordered_cols]\n", "        concat_ordered_cols = [*schema.columns]\n        concat_obj = concat_obj[concat_ordered_cols]\n")
